@@ -104,6 +104,7 @@ fn props_of(aspect: &str) -> &'static [&'static str] {
         | "proj:epochs" | "proj:unknown-track" => &["C03"],
         "proj:ring" | "wasted:ring" | "proj:gallery" | "proj:collected" | "proj:feat-hist" => &["C13"],
         "panic" | "hang" => &["C01", "C03", "C06"],
+        "panic:multi-scene-batch" => &["C01", "C03", "C04", "C06"],
         _ => &[],
     }
 }
@@ -162,8 +163,12 @@ impl Interp {
         let issued_before = before.get("issued").map(ji).unwrap_or(0);
         for (i, (s, r)) in spec.iter().zip(real.iter()).enumerate() {
             let d = det_of(&dets[i]);
-            if !same_box(&r.obs, &d.bbox) || r.cid != d.cid || r.scene as i64 != jint(s, "scene") {
+            if !same_box(&r.obs, &d.bbox) || r.cid != d.cid {
                 return Some(("predict:echo".into(), json!({"i": i, "impl": format!("{:?}", r)})));
+            }
+            if r.scene as i64 != jint(s, "scene") {
+                // the record for this detection carries another scene: the detection went to a track of that scene
+                return Some(("predict:id:foreign-scene".into(), json!({"i": i, "impl": format!("{:?}", r)})));
             }
             let sid = jint(s, "id");
             if !run.bind(r.id, sid) {
@@ -508,7 +513,12 @@ impl Interp {
             let r = std::panic::catch_unwind(std::panic::AssertUnwindSafe(|| self.step(run, s, &before)));
             let m = match r {
                 Ok(m) => m,
-                Err(_) => Some(("panic".to_string(), json!({}))),
+                Err(_) => {
+                    // a batch call for several scenes that panics: the scenes of one batch were not served independently
+                    let o = jget(s, "o");
+                    let multi = jstr(o, "op") == "batch" && jarr(o, "b").len() >= 2;
+                    Some(((if multi { "panic:multi-scene-batch" } else { "panic" }).to_string(), json!({})))
+                }
             };
             if let Some((aspect, mut detail)) = m {
                 if let Some(ctl) = &self.ctl {
